@@ -406,11 +406,22 @@ package tree
 //@   requires treeOK(tree) && allSafe() && lockFree(tree)
 //
 //@ pred ofTree(ns []*node, t *Tree) = forall k int :: 0 <= k && k < len(ns) ==> ns[k] != nil && allocated(ns[k]) && ns[k].root == t
+// strict URL building (C10): the text emitted for the first k nodes of the root-to-route chain
+//@ opaque pred instN(ns []*node, k int, ps map[string]string) string = (k <= 0) ? "" : (instN(ns, k - 1, ps) + piece(ns[k - 1].segment, ps))
 //@ fn Tree.URL
 //@   requires treeOK(tree) && allSafe() && lockFree(tree) && buf != nil
+//@   modifies strings.Builder.text: buf.Builder
+//@   ensures [C10] strict-live: result == nil ==> callresult("tree.Tree.Find", 1, 0) != nil
+//@   ensures [C06] released: lockFree(tree)
 //@   inv 1 [C06,C05] walk: curr != nil && allocated(curr) && curr.root == tree && ofTree(nodes, tree)
+//@   inv 1 frame: unchanged("strings.Builder.text") && tree.locker == old(tree.locker)
 //@   inv 2 [C05] swap: 0 <= i && j < len(nodes) && i + j == len(nodes) - 1 && ofTree(nodes, tree)
+//@   inv 2 frame: unchanged("strings.Builder.text") && tree.locker == old(tree.locker)
 //@   inv 3 [C05] bound: -1 <= rangeindex && rangeindex < len(nodes) && ofTree(nodes, tree)
+//@   inv 3 frame: unchanged("strings.Builder.text", buf.Builder) && tree.locker == old(tree.locker)
+//@   inv 3 [C10] so-far: buf.Builder.text == old(buf.Builder.text) + instN(nodes, rangeindex + 1, ps)
+//@   inv 3 [C10] validated: forall k int :: 0 <= k && k <= rangeindex && nodes[k].segment.Type != 0 ==>
+//@        in(nodes[k].segment.Name, ps) && (kindOK(nodes[k].segment) ==> accepts(nodes[k].segment, ps[nodes[k].segment.Name]))
 //
 //@ fn node.routes
 //@   requires [C06] lock: heldR(n)
